@@ -73,6 +73,9 @@ def to_lisp(e):
         return s + ")"
     if k == "veclit":
         return "[" + " ".join(to_lisp(a) for a in e[1]) + "]"
+    if k == "pylit":
+        o, c = ("[", "]") if e[1] == "list" else ("(", ")")
+        return "#py " + o + " ".join(to_lisp(a) for a in e[2]) + c
     raise ValueError(k)
 
 
@@ -133,6 +136,10 @@ def coq_expr(e):
         return f"(ETry {coq_expr(e[1])} {h} {f})"
     if k == "veclit":
         return f"(EVecLit {coq_list(e[1])})"
+    if k == "pylit":
+        # a Python list/tuple literal: same evaluation rule and same generated shape as a vector literal
+        # (elements left to right, their statements hoisted in order); compared as the sequence of elements
+        return f"(EVecLit {coq_list(e[2])})"
     raise ValueError(k)
 
 
@@ -184,6 +191,8 @@ def RECUR(*args): return ["recur", list(args)]
 def THROW(e): return ["throw", e]
 def TRY(b, h=None, f=None): return ["try", b, list(h) if h else None, f]
 def VEC(*es): return ["veclit", list(es)]
+def PYL(*es): return ["pylit", "list", list(es)]
+def PYT(*es): return ["pylit", "tuple", list(es)]
 def DEF(g, i): return ["def", g, i]
 def GL(g): return ["global", g]
 
@@ -265,6 +274,8 @@ def hazard_programs():
               lambda k: TRY(T(K(k)), None, T(K(k + 1))), lambda k: LOOP([(V, T(K(k)))], L(V)), lambda k: DO(T(K(k)), K(k))):
         for b in (lambda k: T(K(k)), lambda k: LET(V, T(K(k)), L(V)), lambda k: TRY(T(K(k)), (1, E, K(0)), None), lambda k: K(k)):
             out.append(("order-veclit", VEC(a(10), b(20), T(K(30)))))
+            out.append(("order-pylit", PYL(a(10), b(20), T(K(30)))))
+            out.append(("order-pytuple-in-if", IF(T(K(1)), PYT(a(10), b(20)), PYL(T(K(40))))))
             out.append(("order-invoke", INV(T(FN([A_B, XQ], VEC(L(A_B), L(XQ)))), a(10), b(20))))
             out.append(("order-recur", LOOP([(I, K(0)), (ACC, K(0))], IF(P("lt", L(I), K(1)), RECUR(P("inc", a(0)), b(20)), L(ACC)))))
             out.append(("order-fn-recur", INV(FN([I, ACC], IF(P("lt", L(I), K(1)), RECUR(P("inc", a(0)), b(20)), L(ACC)), name=F), K(0), K(0))))
@@ -679,6 +690,8 @@ def position_programs():
             ("try", TRY(T(K(k)), (1, E, K(0)), None)),
             ("loop", LOOP([(V, T(K(k)))], VEC(L(V)))),
             ("call", INV(FN([], T(K(k))))),
+            ("pylist", PYL(T(K(k)), LET(V, T(K(k + 1)), L(V)), IF(L(X), T(K(k + 2)), K(0)))),
+            ("pytuple", PYT(DO(T(K(k)), K(1)), T(K(k + 1)))),
         ]
 
     def fn_children(k):
@@ -701,6 +714,8 @@ def position_programs():
             ("if-test/" + cn, IF(ch, T(K(1)), T(K(2)))),
             ("throw-arg/" + cn, TRY(THROW(P("exc1", ch)), (1, E, T(K(5))), None)),
             ("vec-elem/" + cn, VEC(ch, T(K(6)))),
+            ("pylist-elem/" + cn, PYL(T(K(4)), ch, T(K(6)))),
+            ("if-branch/" + cn, IF(L(X), ch, T(K(7)))),
             ("recur-arg/" + cn, LOOP([(I, K(0)), (ACC, K(0))],
                                      IF(P("lt", L(I), K(1)), RECUR(P("inc", L(I)), ch), T(L(ACC))))),
             ("def-init/" + cn, DO(DEF(0, ch), T(GL(0)))),
